@@ -322,3 +322,24 @@ def symbolic_walk(fn, start, val, stop, max_steps=400):
         if b < 0:
             return seen, 'pruned'
     raise AnalysisBroken('%s: symbolic walk did not terminate' % fn.name)
+
+
+def bool_definitions(fn, name):
+    """Conditions that define the boolean local `name`: [(cond expr, line)] for `name = <comparison>`,
+    whether the tree writes it as a value or the engine has rewritten it as a diamond; plus a list of
+    other (non-comparison) definitions [(rhs, line)]."""
+    from .cfg import written_lvalues as _wl
+    conds, others = [], []
+    for bid, blk in fn.blocks.items():
+        t = blk.get('term')
+        if t and t.get('split_bool'):
+            tb = fn.blocks[blk['succs'][0]]
+            if tb['events'] and is_ref(tb['events'][0]['e']['l'], name):
+                conds.append((t['cond'], t['line']))
+        for ev in blk['events']:
+            if ev.get('split_bool'):
+                continue
+            for lhs, how, rhs in _wl(ev):
+                if is_ref(lhs, name) and rhs is not None and how in ('=', 'decl'):
+                    others.append((rhs, ev['line']))
+    return conds, others
